@@ -72,9 +72,28 @@ Section Statements.
     (queue_empty s && negb (events_empty s)) = false ->
     (finite && r_expired r && negb first) = false -> r_eintr r = false ->
     0 < pipe (arrive_all s (r_before r)) ->
-    round_body s r (negb finite) = inr (s', false) ->
+    round_body s r (negb finite) = inr (s', false) ->      (* false: the iteration sent nothing *)
     exists e, fst (fst (poll_loop finite first s (r :: rest))) = PRet (Some e).
   Proof. exact wake_returns_now. Qed.
+
+  (* "within bounded time", counted in iterations of the loop: with an event queued the loop
+     leaves at the first iteration that sends nothing, and every other iteration sends at least
+     one byte, so the poll is over within |pending| + 1 iterations (iterations cut short by
+     EINTR need a signal each and are not counted); in particular it does not go round on a
+     tty that select reports writable and that accepts nothing.  With a wake request in the
+     socket: within |pending| + 2 iterations, never asleep. *)
+  Theorem C17_returns_within_partial : forall sched finite first (s : pstate),
+    QI s -> events s <> [] -> Forall (fun r => r_eintr r = false) sched ->
+    plen s < length sched ->
+    fst (fst (poll_loop finite first s sched)) <> PMore.
+  Proof. exact returns_within. Qed.
+
+  Theorem C17_wake_returns_within_partial : forall sched finite (s : pstate),
+    QI s -> Wk s -> Forall (fun r => r_eintr r = false) sched ->
+    plen s + 1 < length sched ->
+    let res := fst (fst (poll_loop finite true s sched)) in
+    res <> PMore /\ res <> PBlocked.
+  Proof. exact wake_returns_within. Qed.
 
   (* events leave oldest first: a poll that returns, returns the oldest queued event and leaves
      the rest followed by what arrived meanwhile; an event with i events ahead of it is returned
